@@ -365,7 +365,7 @@ loop:
 		case "oversize":
 			hdr := []byte{0x42, 0x00, 0x78, 0x01, 0, 0x10, 0, 0x08}
 			if a.N == 1 {
-				hdr = []byte{0x42, 0x00, 0x78, 0x01, 0x04, 0x00, 0x00, 0x00} // 64 MiB
+				hdr = []byte{0x42, 0x00, 0x78, 0x01, 0x00, 0x80, 0x00, 0x00} // 8 MiB
 			}
 			s.Fault("oversize")
 			rc.poison = true
